@@ -15,7 +15,7 @@ type Value interface {
 
 func peek(r *bufio.Reader) (c byte, e error) {
 	c, e = r.ReadByte()
-	if e != io.EOF {
+	if e == nil {
 		_ = r.UnreadByte()
 	}
 	return
@@ -81,11 +81,16 @@ func isNotSymbolCharacter(c byte) bool {
 func expect(r *bufio.Reader, c byte) bool {
 	ReadWhitespace(r)
 	res, err := r.ReadByte()
+	if err != nil {
+		// nothing was read, so there is nothing to put back: unreading here
+		// would bring back the last byte before the end of the data
+		return false
+	}
 	if res != c {
 		_ = r.UnreadByte()
 	}
 
-	return res == c && err != io.EOF
+	return res == c
 }
 
 func untilFixed(b byte) func(byte) bool {
